@@ -146,3 +146,72 @@ Theorem var1_moves_rigidly : forall M l i j, (i < length l)%nat -> (j < length l
 Proof.
   intros M l i j Hi Hj. unfold move_to_com_var1. fold (l_dq l). rewrite !nth_shift by (unfold l_dq; rewrite map_length; assumption). ring.
 Qed.
+
+(* ---------------- frame changes as equations *)
+Lemma shift_shift : forall a b qs, shift RNum a (shift RNum b qs) = shift RNum (a + b) qs.
+Proof. intros. unfold shift. rewrite map_map. apply map_ext. intro q. rn. ring. Qed.
+Lemma shift_0 : forall qs, shift RNum 0 qs = qs.
+Proof. intros. unfold shift. rewrite <- (map_id qs) at 2. apply map_ext. intro q. rn. ring. Qed.
+Lemma hel_is_shift : forall q0 r, move_to_hel RNum (q0 :: r) = shift RNum q0 (q0 :: r).
+Proof. intros. cbn [move_to_hel shift map]. rn. f_equal. ring. Qed.
+
+Lemma com_q_shift : forall ms qs c, ms <> [] -> length ms = length qs -> pos_prefix 0 ms ->
+  com_q RNum ms (shift RNum c qs) = com_q RNum ms qs - c.
+Proof.
+  intros ms qs c Hne Hl Hp. destruct (com_is_weighted_mean ms qs Hne Hl Hp) as (_ & P & E).
+  assert (Hl' : length ms = length (shift RNum c qs)) by (rewrite length_shift; exact Hl).
+  destruct (com_is_weighted_mean ms _ Hne Hl' Hp) as (_ & _ & E'). rewrite E', E, MQ_shift by exact Hl. field. lra.
+Qed.
+
+(* the centre-of-mass frame does not depend on a previous translation of the whole system; it is idempotent *)
+Theorem move_to_com_after_translation : forall ms qs c, ms <> [] -> length ms = length qs -> pos_prefix 0 ms ->
+  move_to_com RNum ms (shift RNum c qs) = move_to_com RNum ms qs.
+Proof.
+  intros ms qs c Hne Hl Hp. unfold move_to_com. rewrite com_q_shift by assumption. rewrite shift_shift. f_equal. ring.
+Qed.
+Theorem move_to_com_idempotent : forall ms qs, ms <> [] -> length ms = length qs -> pos_prefix 0 ms ->
+  move_to_com RNum ms (move_to_com RNum ms qs) = move_to_com RNum ms qs.
+Proof. intros ms qs Hne Hl Hp. unfold move_to_com at 2. apply move_to_com_after_translation; assumption. Qed.
+Theorem move_to_hel_after_translation : forall qs c, move_to_hel RNum (shift RNum c qs) = move_to_hel RNum qs.
+Proof.
+  intros [|q0 r] c; [reflexivity|]. change (shift RNum c (q0 :: r)) with ((q0 - c) :: shift RNum c r).
+  rewrite !hel_is_shift. change ((q0 - c) :: shift RNum c r) with (shift RNum c (q0 :: r)). rewrite shift_shift. f_equal. ring.
+Qed.
+Theorem move_to_hel_idempotent : forall qs, move_to_hel RNum (move_to_hel RNum qs) = move_to_hel RNum qs.
+Proof. intros [|q0 r]; [reflexivity|]. rewrite hel_is_shift at 1. rewrite move_to_hel_after_translation. reflexivity. Qed.
+Theorem com_after_hel_and_hel_after_com : forall ms qs, ms <> [] -> length ms = length qs -> pos_prefix 0 ms ->
+  move_to_com RNum ms (move_to_hel RNum qs) = move_to_com RNum ms qs /\
+  move_to_hel RNum (move_to_com RNum ms qs) = move_to_hel RNum qs.
+Proof.
+  intros ms qs Hne Hl Hp. split.
+  - destruct qs as [|q0 r]; [reflexivity|]. rewrite hel_is_shift. apply move_to_com_after_translation; assumption.
+  - unfold move_to_com. apply move_to_hel_after_translation.
+Qed.
+
+(* ---------------- Simulation arithmetic laws (add, subtract, scale), one component *)
+Lemma zip_add_comm : forall a b, zip_add RNum a b = zip_add RNum b a.
+Proof. induction a as [|x a IH]; intros [|y b]; cbn [zip_add]; try reflexivity. rn. f_equal; [ring | apply IH]. Qed.
+Theorem arithmetic_laws : forall (a b c : list R) s t, length a = length b -> length b = length c ->
+  iadd RNum a b = iadd RNum b a /\
+  iadd RNum (iadd RNum a b) c = iadd RNum a (iadd RNum b c) /\
+  imul RNum s (imul RNum t a) = imul RNum (t * s) a /\
+  imul RNum 1 a = a /\
+  imul RNum s (isub RNum a b) = isub RNum (imul RNum s a) (imul RNum s b) /\
+  isub RNum a b = iadd RNum a (imul RNum (-1) b) /\
+  (forall i, nth i (isub RNum a a) 0 = 0).
+Proof.
+  intros a b c s t H1 H2.
+  assert (A : iadd RNum a b = iadd RNum b a) by (unfold iadd; rewrite H1, Nat.eqb_refl; apply zip_add_comm).
+  split; [exact A|]. split.
+  - unfold iadd. destruct (zip_len a b H1) as [L1 _]. destruct (zip_len b c H2) as [L2 _].
+    rewrite H1, H2, !Nat.eqb_refl, L1, L2, H1, H2, !Nat.eqb_refl. clear.
+    revert b c. induction a as [|x a IH]; intros [|y b] [|z c]; cbn [zip_add]; try reflexivity. rn. f_equal; [ring | apply IH].
+  - split; [unfold imul; rewrite map_map; apply map_ext; intro q; rn; ring|].
+    split; [unfold imul; rewrite <- (map_id a) at 2; apply map_ext; intro q; rn; ring|].
+    split; [|split].
+    + unfold isub, imul. rewrite !map_length, H1, Nat.eqb_refl. clear - H1. revert b H1.
+      induction a as [|x a IH]; intros [|y b] H; try discriminate; [reflexivity|]. injection H as H. cbn [zip_sub map]. rn. f_equal; [ring | apply IH; exact H].
+    + unfold isub, iadd, imul. rewrite map_length, H1, Nat.eqb_refl. clear - H1. revert b H1.
+      induction a as [|x a IH]; intros [|y b] H; try discriminate; [reflexivity|]. injection H as H. cbn [zip_sub zip_add map]. rn. f_equal; [ring | apply IH; exact H].
+    + intro i. unfold isub. rewrite Nat.eqb_refl. clear. revert i. induction a as [|x a IH]; intros [|i]; cbn [zip_sub nth]; rn; try ring. apply IH.
+Qed.
